@@ -85,24 +85,25 @@ def parseValAtom : String → Val
   | "null" => .null
   | s => .scalar s
 
-partial def parseTerm : Sexp → Option Fut
+/-- `deliv id` is what the script will deliver to promise `id` (the script is known up front). -/
+partial def parseTerm (deliv : Nat → Res) : Sexp → Option Fut
   | .list [.atom "ready", .atom "ok", .atom v] => some (.ready (.ok (parseValAtom v)))
   | .list [.atom "ready", .atom "err", .atom m] => some (.ready (.err ⟨[], m⟩))
-  | .list [.atom "promise", id] => do pure (.promise (← id.nat?))
+  | .list [.atom "promise", id] => do let n ← id.nat?; pure (.promise [.idx n] (deliv n))
   | .list [.atom "map", .atom fn, .atom tag, t] => do
-    let t ← parseTerm t
+    let t ← parseTerm deliv t
     match fn with
     | "catch" => pure (.map .catchError t)
     | "nonnull" => pure (.map (.nonNull ⟨[], "nonnull:" ++ tag⟩) t)
     | "log" => pure (.map (.tap tag) t)
     | _ => none
-  | .list [.atom "mapOk", .atom tag, t] => do pure (.mapOk (.setSlot [] 0 tag) (← parseTerm t))
-  | .list [.atom "mapOkToAny", t] => do pure (.mapOkToAny (← parseTerm t))
-  | .list [.atom "mapOkValue", .atom v, t] => do pure (.mapOkValue (parseValAtom v) (← parseTerm t))
+  | .list [.atom "mapOk", .atom tag, t] => do pure (.mapOk (.setSlot [] 0 tag) (← parseTerm deliv t))
+  | .list [.atom "mapOkToAny", t] => do pure (.mapOkToAny (← parseTerm deliv t))
+  | .list [.atom "mapOkValue", .atom v, t] => do pure (.mapOkValue (parseValAtom v) (← parseTerm deliv t))
   | .list [.atom "then", .atom tag, t, a, b] => do
-    pure (.thenT tag (← parseTerm a) (← parseTerm b) (← parseTerm t) none)
-  | .list (.atom "join" :: ts) => do pure (.join (← ts.mapM parseTerm))
-  | .list (.atom "after" :: ts) => do pure (.after (← ts.mapM parseTerm))
+    pure (.thenT tag (← parseTerm deliv a) (← parseTerm deliv b) (← parseTerm deliv t) none)
+  | .list (.atom "join" :: ts) => do pure (.join (← ts.mapM (parseTerm deliv)))
+  | .list (.atom "after" :: ts) => do pure (.after (← ts.mapM (parseTerm deliv)))
   | _ => none
 
 inductive Step where
@@ -131,12 +132,16 @@ def runSteps : List Step → Fut → Store → List String → List String × St
   | .poll :: rest, f, S, acc =>
     let (f', S', _) := poll f S
     runSteps rest f' S' (stateOf f' :: acc)
-  | .fulfil id r :: rest, f, S, acc =>
-    runSteps rest f { S with chan := S.chan ++ [(id, r)] } (stateOf f :: acc)
+  | .fulfil id _ :: rest, f, S, acc =>
+    runSteps rest f { S with chan := S.chan ++ [[.idx id]] } (stateOf f :: acc)
 
 def handleComb (t : Sexp) (steps : List Sexp) : Option Sexp := do
-  let t ← parseTerm t
   let steps ← steps.mapM parseStep
+  let deliv : Nat → Res := fun id =>
+    match steps.find? (fun s => match s with | .fulfil j _ => j == id | _ => false) with
+    | some (.fulfil _ r) => r
+    | _ => .ok .null
+  let t ← parseTerm deliv t
   let (f, S) := construct t {}
   let (states, S') := runSteps steps f S [stateOf f]
   let states := if S'.crash then ["CRASH"] else states
